@@ -213,10 +213,58 @@ def long_series(case):
     return None
 
 
+def large_values(case):
+    """Direct check at outputs and observations that are huge compared with the scale (|y| / sigma up to 1e10):
+    the residual must be formed before it is squared"""
+    import random
+    rng = random.Random(case['seed'])
+    kind = case['kind']
+    n = rng.choice([1, 2, 5])
+    mag = 10.0 ** rng.randint(4, 9)
+    ms = [mag * rng.uniform(1.0, 9.0) for _ in range(n)]
+    if kind == 'G':
+        params = [rng.choice([0.05, 0.5, 2.0])]
+        ys = [m + params[0] * rng.uniform(-2, 2) for m in ms]
+    elif kind == 'LN':
+        params = [rng.choice([1e-4, 1e-3])]
+        ys = [m * math.exp(params[0] * rng.uniform(-2, 2)) for m in ms]
+    elif kind == 'MG':
+        params = [rng.choice([1e-6, 1e-5])]
+        ys = [m + params[0] * m * rng.uniform(-2, 2) for m in ms]
+    else:
+        params = [rng.choice([0.05, 1.0]), 1e-7]
+        ys = [m + (params[0] + params[1] * m) * rng.uniform(-2, 2) for m in ms]
+    em = chi_model(kind)
+    ll = float(em.compute_log_likelihood(params, ms, ys))
+    pw = np.asarray(em.compute_pointwise_ll(params, ms, ys), dtype=float)
+    s1 = float(em.compute_sensitivities(params, ms, np.ones((n, 1)), ys)[0])
+    # reference in exact rational arithmetic on the float inputs (only the final log / exp go through floats)
+    from fractions import Fraction as F
+    ref = 0.0
+    for m, y in zip(ms, ys):
+        if kind == 'LN':
+            s_ = params[0]
+            z = (math.log(y) - math.log(m) + s_ * s_ / 2) / s_
+            ref += -0.5 * math.log(2 * math.pi) - math.log(s_) - math.log(y) - z * z / 2
+        else:
+            sd = {'G': F(params[0]), 'MG': F(params[0]) * F(m), 'CMG': F(params[0]) + F(params[-1]) * F(m)}[kind]
+            z2 = float(((F(y) - F(m)) / sd) ** 2)
+            ref += -0.5 * math.log(2 * math.pi) - math.log(float(sd)) - z2 / 2
+    tol = 1e-6 if kind == 'LN' else 1e-9       # log(y) - log(m) loses digits itself at these magnitudes
+    for name, v in (('compute_log_likelihood', ll), ('sum of compute_pointwise_ll', float(np.sum(pw))),
+                    ('score of compute_sensitivities', s1)):
+        if not math.isfinite(v) or abs(v - ref) > tol * (1 + abs(ref)):
+            return ('%s, %d observation(s) of magnitude %g with parameters %s: %s is %r, the sum of the documented '
+                    'log-densities is %r' % (kind, n, mag, params, name, v, ref))
+    return None
+
+
 def oracle(case):
     """None if chi satisfies C04 on this case (independent closed forms / finite differences)."""
     if case.get('type') == 'long':
         return long_series(case)
+    if case.get('type') == 'large':
+        return large_values(case)
     em = chi_model(case['kind'])
     k, params, ms, ys = case['kind'], list(case['params']), list(case['ms']), list(case['ys'])
     n, p = len(ms), (len(case['sens'][0]) if case['sens'] else 0)
@@ -325,6 +373,17 @@ def run(ck):
             ck.case(lc)
             if d:
                 ck.violation('C04|%s|long series' % kind, d, lc)
+    for kind in KINDS:
+        for j in range(ck.n(6, 40)):
+            lc = {'type': 'large', 'kind': kind, 'seed': ck.rng.randrange(10 ** 9), 'guard': False}
+            try:
+                d = large_values(lc)
+            except Exception as e:
+                d = 'chi raised %s: %s' % (type(e).__name__, e)
+            ck.count('large values kind=%s' % kind)
+            ck.case(lc)
+            if d:
+                ck.violation('C04|%s|large values' % kind, d, lc)
     ck.cov['rule'] = ('stratified suite per error model (square/wide/tall sensitivity shapes, every guard site) plus '
                       'cases drawn from one PRNG (VERIF_SEED): 1-6 (thorough: up to 12) observations, sensitivity '
                       'width 0-3, dyadic parameters/outputs/observations, 10% outside the support; each case is '
